@@ -1448,6 +1448,36 @@ func (x *c21Run) run() {
 		}
 		x.clock += 10
 	}
+	if x.p.Index%4 == 1 {
+		// root-kind program: the same endpoint scans its root while it is
+		// removed, a file, an empty directory, a dangling link, a directory again
+		which := []string{"a", "b"}[x.rng.Intn(2)]
+		for _, op := range []diskOp{
+			{Kind: "root-remove"},
+			{Kind: "root-file", Size: c21Size(x.rng), Seed: x.rng.Int63(), Mode: 0o755, Mtime: x.clock + 1},
+			{Kind: "root-dir"},
+			{Kind: "root-link", Target: "nowhere"},
+			{Kind: "root-remove"},
+			{Kind: "root-dir"},
+			{Kind: "write", Path: "after-root-change", Size: 100, Seed: x.rng.Int63(), Mode: 0o644, Mtime: x.clock + 2},
+		} {
+			if x.dead {
+				break
+			}
+			x.log("edit %s: %s", which, op)
+			el, er := applyOp(x.L.root(which), op), applyOp(x.R.root(which), op)
+			if (el == nil) != (er == nil) {
+				x.r.Inconclusive("edit-not-mirrored")
+				x.dead = true
+				break
+			}
+			x.dirty[which] = true
+			x.r.Count("edits", 1)
+			x.r.Count("edits_root_kind", 1)
+			record(x.scan(which, x.rng.Intn(2) == 0))
+		}
+		x.clock += 5
+	}
 	for x.step = 1; x.step <= x.p.Steps && !x.dead; x.step++ {
 		which := []string{"a", "b"}[x.rng.Intn(2)]
 		other := map[string]string{"a": "b", "b": "a"}[which]
